@@ -358,7 +358,9 @@ func c09Units(ctx *core.Ctx) []core.Unit {
 		sizes := []int{1024, 512, 256, 128, 64, 33, 32, 8, 3, 1, 3, 8, 32, 33, 64, 128, 256, 512, 1024, 256, 1024, 255}
 		// the expected sums once per size (reference bucket MSM)
 		want := map[int]ref.Pt{}
-		mk := func(n int) ([]banderwagon.Element, []fr.Element, []ref.Pt, []*big.Int) {
+		// sparse = every third scalar is zero and a third is small (the dense and the sparse variant of a size
+		// alternate along the history: what a call leaves behind for an index must not reach the next call)
+		mk := func(n int, sparse bool) ([]banderwagon.Element, []fr.Element, []ref.Pt, []*big.Int) {
 			pts := make([]banderwagon.Element, n)
 			sc := make([]fr.Element, n)
 			rp := make([]ref.Pt, n)
@@ -367,19 +369,32 @@ func c09Units(ctx *core.Ctx) []core.Unit {
 				k := (i*5 + 1) % 256
 				pts[i], rp[i] = c.SRS[k], ref.SRS()[k]
 				ss[i] = msmScalar(ctx.Seed, i%97, 0)
+				if sparse {
+					switch i % 3 {
+					case 1:
+						ss[i] = bi(0)
+					case 2:
+						ss[i] = bi(int64(i%251 + 1))
+					}
+				}
 				sc[i] = frFromBig(ss[i])
 			}
 			return pts, sc, rp, ss
 		}
 		for _, nb := range []int{0, 1, 2, 16, 64, 128, 256, 1024} {
 			for step, n := range sizes {
-				pts, sc, rp, ss := mk(n)
-				w, ok := want[n]
+				sparse := step%2 == 1
+				pts, sc, rp, ss := mk(n, sparse)
+				key := n
+				if sparse {
+					key = -n
+				}
+				w, ok := want[key]
 				if !ok {
 					w = ref.MSMBucket(rp, ss)
-					want[n] = w
+					want[key] = w
 				}
-				in := fmt.Sprintf("NbTasks=%d, call #%d of the size history %v: n=%d", nb, step+1, sizes, n)
+				in := fmt.Sprintf("NbTasks=%d, call #%d of the size history %v (odd calls sparse): n=%d", nb, step+1, sizes, n)
 				var e banderwagon.Element
 				var err error
 				if !timed(r, "c09.panic", "banderwagon.Element.MultiExp", in, func() {
